@@ -64,6 +64,20 @@ theorem commit_out (c : Ctx) (T : Str) (h : InvOut c T) :
     Closed false (commit c).done false ∧ D false (commit c).done = T ∧ (commit c).cand = [] ∧ (commit c).bucket = [] ∧ (commit c).seq = [] :=
   commit_out' c T h.done_closed h.text h.cand_ok h.bucket_ok
 
+theorem commitAsToken_out (c : Ctx) (T : Str) (h : InvOut c T) :
+    Closed false (commitAsToken c).done false ∧ D false (commitAsToken c).done = T ∧ (commitAsToken c).cand = []
+      ∧ (commitAsToken c).bucket = [] ∧ (commitAsToken c).seq = [] := by
+  unfold commitAsToken
+  split
+  · rename_i h2
+    obtain ⟨hd, ht, hc, hb, hs⟩ := h
+    obtain ⟨hcc, hch⟩ := cand_closed c hc
+    obtain ⟨_, hdk, _, _⟩ := closed_token _ h2
+    apply commit_out' ⟨c.done ++ c.cand, tokenBytes c.bucket, c.seq, []⟩ T (closed_append hd hcc hch) ?_ (Or.inr ⟨_, h2, rfl⟩) (by simp)
+    simp only [hdk, List.append_nil]
+    rw [hd _ hch]; exact ht
+  · exact commit_out c T h
+
 theorem invOut_of_commit' (c : Ctx) (T : Str) (hd : Closed false c.done false) (ht : D false c.done ++ D false c.cand ++ c.bucket = T)
     (hc : c.cand = [] ∨ ∃ k, isToken k = true ∧ c.cand = tokenBytes k) (hb : ∀ x ∈ c.bucket, x < 128 ∧ x ≠ 34) : InvOut (commit c) T := by
   obtain ⟨h1, h2, h3, h4, h5⟩ := commit_out' c T hd ht hc hb
@@ -161,11 +175,12 @@ theorem parseChar_inv (st : Ctx × Bool) (p : Str) (ch : Nat) (hch : ch < 128) (
     by_cases hq : ch = 34
     · -- opening quote
       subst hq
-      simp only [if_true, Bool.not_false]
-      obtain ⟨g1, g2, g3, g4, g5⟩ := commit_out c _ hI
+      simp only [if_true, Bool.not_false, Bool.false_eq_true, if_false]
+      obtain ⟨g1, g2, g3, g4, g5⟩ := commitAsToken_out c _ hI
+      generalize commitAsToken c = c' at g1 g2 g3 g4 g5
       simp only [Inv, if_true]
       constructor
-      · have hc2 : commit (appendAsLiteral (commit c) [34]) = { done := (commit c).done ++ [34], cand := [], seq := [], bucket := [] } := by
+      · have hc2 : commit (appendAsLiteral c' [34]) = { done := c'.done ++ [34], cand := [], seq := [], bucket := [] } := by
           simp [commit, appendAsLiteral, g3, g4]
         rw [hc2]
         refine ⟨closed_append g1 closed_quote_open (by simp), rfl, ?_, by simp⟩
@@ -266,7 +281,12 @@ theorem lossless (body : Str) (h : ∀ ch ∈ body, ch < 128) :
   cases inLit with
   | false =>
     simp only [Inv, Bool.false_eq_true, if_false] at hf
-    exact (commit_out c _ hf.1).2.1
+    obtain ⟨_, g2, g3, g4, g5⟩ := commitAsToken_out c _ hf.1
+    show D false (finish (c, false)).done = _
+    unfold finish
+    simp only [Bool.false_eq_true, if_false]
+    rw [commit_of_clean _ ⟨g3, g5, g4⟩]
+    exact g2
   | true =>
     simp only [Inv, if_true] at hf
     obtain ⟨⟨hd, hcn, ht, hb⟩, _⟩ := hf
@@ -285,7 +305,7 @@ theorem lossless_line (line : Str) (num : Nat) (body : Str) (hl : extractLinePar
 
 /-- regression witnesses: the inputs that lost text before the repairs -/
 example : BasicRef.decode false (encodeBody (Tape.str "GOTO 10")) = Tape.str "GOTO 10" := by decide
-example : BasicRef.decode false (encodeBody (Tape.str "ONERRORGOTO5")) = Tape.str "ONERRORGOTO5" := by decide
+example : BasicRef.decode false (encodeBody (Tape.str "ONERRORGOTO5")) = Tape.str "ONERRORGOTO5" := by decide +kernel
 example : BasicRef.decode false (encodeBody (Tape.str "toto=1:else print\"a:\"else")) = Tape.str "TOTO=1:ELSE PRINT\"a:\"ELSE" := by decide
 example : extractLineParts (Tape.str "60 X=1") = some (60, Tape.str "X=1") := by decide
 
